@@ -156,6 +156,38 @@ def install():
     dataset.SharedMemory = FakeSharedMemory
     disk.SharedMemory = FakeSharedMemory
     disk.open = fake_open  # module global shadows the builtin inside disk.py
+    if hasattr(disk, "os"):
+        # existence / removal queries have to agree with the in-memory files
+        import os as _real_os
+
+        class _P:
+            def __getattr__(self, n):
+                return getattr(_real_os.path, n)
+
+            @staticmethod
+            def exists(path):
+                return path in WORLD.files if str(path).startswith("/fake/") else _real_os.path.exists(path)
+
+            isfile = exists
+
+        class _OS:
+            path = _P()
+
+            def __getattr__(self, n):
+                return getattr(_real_os, n)
+
+            @staticmethod
+            def remove(path):
+                if str(path).startswith("/fake/"):
+                    if path not in WORLD.files:
+                        raise FileNotFoundError(path)
+                    del WORLD.files[path]
+                else:
+                    _real_os.remove(path)
+
+            unlink = remove
+
+        disk.os = _OS()
     disk.multiprocessing = types.SimpleNamespace(
         resource_tracker=types.SimpleNamespace(unregister=lambda *a, **k: None)
     )
